@@ -737,9 +737,15 @@ reg("nanred", 1, _gen_nanred, _np_nanred,
 
 # ---- linear algebra -------------------------------------------------------------------
 
+def _finite(*arrs):
+    return all(not (x.dtype.kind in "fc" and x.size and not np.isfinite(x).all()) for x in arrs)
+
+
 def _gen_matmul(tp, a, b):
     if not (_isnum(a) and _isnum(b) and _np_result_ok(a, b)) or a.ndim == 0 or b.ndim == 0:
         return None
+    if not _finite(a, b):
+        return None  # BLAS short-cuts make 0*nan depend on block shapes in NumPy itself
     try:
         np.matmul(np.empty(a.shape, dtype=np.int8), np.empty(b.shape, dtype=np.int8))
     except ValueError:
@@ -753,6 +759,8 @@ reg("matmul", 2, _gen_matmul, lambda a, b, p: np.matmul(a, b), lambda a, b, p: _
 
 def _gen_tensordot(tp, a, b):
     if not (_isnum(a) and _isnum(b) and _np_result_ok(a, b)) or a.ndim == 0 or b.ndim == 0:
+        return None
+    if not _finite(a, b):
         return None
     for k in tp.shuffle([1, 2, 0]):
         if k <= a.ndim and k <= b.ndim and (k == 0 or a.shape[-k:] == b.shape[:k]) and a.ndim + b.ndim - 2 * k <= 4:
@@ -776,7 +784,7 @@ reg("tensordot", 2, _gen_tensordot, lambda a, b, p: np.tensordot(a, b, axes=_td_
 def _gen_vecdot(tp, a, b):
     if not (_isnum(a) and _isnum(b) and _np_result_ok(a, b)) or a.ndim == 0 or b.ndim == 0:
         return None
-    if a.shape[-1] != b.shape[-1]:
+    if a.shape[-1] != b.shape[-1] or not _finite(a, b):
         return None
     try:
         np.broadcast_shapes(a.shape, b.shape)
@@ -788,7 +796,7 @@ def _gen_vecdot(tp, a, b):
 reg("vecdot", 2, _gen_vecdot, lambda a, b, p: (a * b).sum(axis=-1),
     lambda a, b, p: _xp().vecdot(a, b, axis=-1), weight=2, tags=("linalg",))
 
-reg("outer", 2, lambda tp, a, b: {} if a.ndim == 1 and b.ndim == 1 and _isnum(a) and _isnum(b) and _np_result_ok(a, b) else None,
+reg("outer", 2, lambda tp, a, b: {} if a.ndim == 1 and b.ndim == 1 and _isnum(a) and _isnum(b) and _np_result_ok(a, b) and _finite(a, b) else None,
     lambda a, b, p: np.outer(a, b), lambda a, b, p: _linalg().outer(a, b), weight=2, tags=("linalg",))
 
 
